@@ -344,24 +344,9 @@ def run(F, R, tier):
         h = F.hir(fn)
         if not (r6.anchor(body, fn) and r6.anchor(h, fn)):
             continue
-        L.mir_success_dominates(r6, F, fn, cpat, "crypto verify")
-        env = H.Env(h)
-        for c in H.calls(h, cpat):
-            args = H.call_args(c)
-            per = [H.origins(a, env, extra=SEE_THROUGH) for a in args]
-            flat = set().union(*per)
-            r6.site("%s: crypto verify args ← %s" % (L.short(fn), [sorted(map(str, p))[:2] for p in per]), c["sp"])
-            has_msg = any(any(o[:3] == ("param", "input", "signing_input") for o in p) for p in per)
-            has_sig = any(any(o[:3] == ("param", "input", "decoded_signature") for o in p) for p in per)
-            has_key = any(any(o[:2] == ("param", "public_key") for o in p) for p in per)
-            r6.require(has_msg, (fn, "message"), "%s: the verified message is not input.signing_input" % L.short(fn))
-            r6.require(has_sig, (fn, "signature"), "%s: the verified signature is not input.decoded_signature" % L.short(fn))
-            r6.require(has_key, (fn, "key"), "%s: the verifying key does not derive from the public_key parameter" % L.short(fn))
-            msg_args = [p for p in per if any(o[:3] == ("param", "input", "signing_input") for o in p)]
-            r6.require(all(p == {("param", "input", "signing_input")} for p in msg_args), (fn, "message-pure"), "%s: the message operand mixes other sources: %s" % (L.short(fn), msg_args))
         # by abstract evaluation: on every accepting path the crypto verify ✓ got exactly input.signing_input as message and a
         # signature converted from the *whole* input.decoded_signature (conversions only — no slicing, indexing or truncation)
-        tabv = SR.Table(F, fn, rule=r6, max_paths=6000)
+        tabv = SR.Table(F, fn, opaque=r"Jwk::try_(okp|ec)_params$", rule=r6, max_paths=6000)
         INP = SR.param("input")
         SIG, MSG = ("field", INP, "decoded_signature"), ("field", INP, "signing_input")
         CONV = re.compile(r"(try_from|from_slice|from_bytes|from|into|try_into|normalize_s|as_ref|as_slice|deref|borrow|clone|to_vec|to_bytes|unwrap_or)$")
@@ -388,40 +373,36 @@ def run(F, R, tier):
                        "%s: the signature verified is not a conversion of the whole input.decoded_signature (it is sliced, truncated or otherwise reduced): %s" % (L.short(fn), [sym.fmt(a_)[:120] for a_ in sig_args]))
             r6.require(any(SR.derives(a_, SR.param("public_key")) for a_ in ats), (fn, "key"), "%s: the verifying key does not derive from the public_key parameter" % L.short(fn))
         r6.site("%s: %d accepting path(s): crypto verify(key ← public_key, msg = input.signing_input, sig = conv(input.decoded_signature)) ✓" % (L.short(fn), nok))
-        # key type / curve rejections precede
-        tree, infos = L.exit_infos(h)
-        for e in infos:
-            if L.is_success_exit(e):
-                tried = {(H.fn_name(c) or "").rsplit("::", 1)[-1] for c in e.tried}
-                r6.require(tried & {"try_okp_params", "try_ec_params"}, (fn, "kty-check"), "%s: success without the key-type check (try_okp_params/try_ec_params)" % L.short(fn))
-    # dispatch tables
+        # the key-type / curve gate: an accepting path examined the key's parameters of the right family ✓
+        for q in tabv.ok():
+            kt = [e for e in q.events if e.kind == "call" and re.search(r"Jwk::try_(okp|ec)_params$", e.fn or "") and q.succeeded(e) is True and SR.derives(e.args[0], SR.param("public_key"))]
+            r6.require(bool(kt), (fn, "kty-check"), "%s: success without the key-type check (try_okp_params/try_ec_params ✓ on public_key)" % L.short(fn))
+    # dispatch tables, on the decision table of each JwsVerifier::verify: input.alg = X → exactly the verifier for X applied to
+    # (input, public_key), its verdict returned; every other alg → Err without any verifier call
     for fn, want in (("<identity_eddsa_verifier::eddsa_verifier::EdDSAJwsVerifier as identity_jose::jws::custom_verification::jws_verifier::JwsVerifier>::verify",
                       {"EdDSA": "identity_eddsa_verifier::ed25519_verifier::Ed25519Verifier::verify"}),
                      ("<identity_ecdsa_verifier::ecdsa_jws_verifier::EcDSAJwsVerifier as identity_jose::jws::custom_verification::jws_verifier::JwsVerifier>::verify",
                       {"ES256": "identity_ecdsa_verifier::secp256r1::Secp256R1Verifier::verify", "ES256K": "identity_ecdsa_verifier::secp256k1::Secp256K1Verifier::verify"})):
-        h = F.hir(fn)
-        if not r6.anchor(h, fn):
+        if not r6.anchor(F.hir(fn), fn):
             continue
-        env = H.Env(h)
-        m = H.find_first(h, lambda n: n.get("k") == "match" and n.get("src") == "normal")
-        if not r6.require(m is not None, (fn, "table"), "dispatch table not found"):
-            continue
-        so = H.origins(m["scrut"], env)
-        r6.require(so == {("param", "input", "alg")}, (fn, "scrutinee"), "dispatch is not on input.alg: %s" % sorted(map(str, so)))
-        for arm in m["arms"]:
-            ps = H.pat_str(arm["pat"])
-            body_ = H.strip(arm["body"])
-            callee = H.fn_name(body_) if body_.get("k") in ("call", "mcall") and not body_.get("ctor") else None
-            r6.site("%s: %s → %s" % (L.short(fn), ps, L.short(callee) if callee else H.outcome(arm["body"])))
-            if ps in want:
-                r6.require(callee == want[ps], (fn, "arm", ps), "alg %s dispatches to %s, expected %s" % (ps, callee, want[ps]))
-                if callee:
-                    ao = [H.origins(a, env) for a in H.call_args(body_)]
-                    r6.require(ao[0] == {("param", "input")} and ao[1] == {("param", "public_key")}, (fn, "arm-args", ps), "dispatch arm %s does not forward (input, public_key)" % ps)
+        tabd = SR.Table(F, fn, opaque=r"(Ed25519Verifier|Secp256R1Verifier|Secp256K1Verifier)::verify$", rule=r6)
+        ALG = ("field", SR.param("input"), "alg")
+        seen = {}
+        for q in tabd.paths:
+            av = q.variant.get(ALG)
+            vc = [e for e in q.events if e.kind == "call" and re.search(r"(Ed25519Verifier|Secp256R1Verifier|Secp256K1Verifier)::verify$", e.fn or "")]
+            if isinstance(av, str) and av in want:
+                good = len(vc) == 1 and (vc[0].fn or "") == want[av] and SR.pure(vc[0].args[0], SR.param("input")) and SR.pure(vc[0].args[1], SR.param("public_key")) and SR.pure(q.ret, vc[0].result.t)
+                r6.require(good, (fn, "arm", av), "alg %s does not dispatch to %s(input, public_key) with its verdict returned (calls: %s)" % (av, L.short(want[av]), [L.short(e.fn or "") for e in vc]))
+                seen[av] = good
+                r6.site("%s: %s → %s" % (L.short(fn), av, L.short(want[av])))
             else:
-                r6.require(H.outcome(arm["body"]).startswith("Err("), (fn, "arm", ps), "alg arm %s is not rejected (outcome %s)" % (ps, H.outcome(arm["body"])))
-        r6.require(set(want) <= {H.pat_str(a_["pat"]) for a_ in m["arms"]}, (fn, "arms-missing"), "dispatch table lacks %s" % sorted(want))
-    r6.floor(11)
+                r6.require(not vc and SR.is_failure(q.ret), (fn, "arm", str(av)), "alg %s is not rejected without calling a verifier (outcome %s)" % (av, q.ret))
+                if not isinstance(av, str) or av not in want:
+                    seen.setdefault("<other>", True)
+        r6.require(set(want) <= set(seen) or not tabd.paths, (fn, "arms-missing"), "dispatch table lacks %s" % sorted(set(want) - set(seen)))
+        r6.require("<other>" in seen or not tabd.paths, (fn, "scrutinee"), "dispatch is not on input.alg (no rejecting row for other algorithms)")
+    r6.floor(6)
 
     # ------------------------------------------------------------------ R7 the verification result is never discarded
     r7 = R.rule("C01-R7", "T9", "every caller of JwsValidationItem::verify propagates or branches on its Result (never drops it or treats Err as success)")
